@@ -16,4 +16,221 @@ namespace Reamber.BMS
 
 open Reamber.Timing Reamber.PermInv
 
+/-! ### (1) the file's lines give every channel an ARRANGEMENT of its cells' objects -/
+
+/-- the by-the-book object of a written cell -/
+def objOfCell (c : WCell) : Obj :=
+  ⟨⟨(c.measure.toNat : Int), 4 * ((c.idx : Nat) : Rat) / ((c.den : Nat) : Rat), none⟩, c.value⟩
+
+def cellShown (ch : Bytes) (c : WCell) : Bool := decide (c.channel = ch) && decide (c.value ≠ ['0', '0'])
+
+/-- keys that name pairwise different lines and cover the cells split the cells into their lines -/
+theorem partition_perm (ks : List WCell) (hpw : ks.Pairwise (fun a b => sameLine a b = false)) :
+    ∀ (l : List WCell), (∀ c ∈ l, ∃ k ∈ ks, sameLine k c = true) →
+      l.Perm (ks.flatMap (fun k => l.filter (sameLine k))) := by
+  intro l
+  induction l with
+  | nil => intro _; simp
+  | cons c t ih =>
+    intro hcov
+    have ih' := ih (fun x hx => hcov x (by simp [hx]))
+    obtain ⟨k0, hk0, hs0⟩ := hcov c (by simp)
+    -- exactly the line of `k0` receives `c`
+    have huniq : ∀ k ∈ ks, k ≠ k0 → sameLine k c = false := by
+      intro k hk hne
+      cases hsk : sameLine k c with
+      | false => rfl
+      | true =>
+        exfalso
+        have hkk : sameLine k k0 = true := sameLine_trans hsk (sameLine_symm hs0)
+        have key : ∀ (l : List WCell), l.Pairwise (fun a b => sameLine a b = false) → k ∈ l → k0 ∈ l → False := by
+          intro l
+          induction l with
+          | nil => intro _ h1; cases h1
+          | cons x r ihr =>
+            intro hp h1 h2
+            have hp' := List.pairwise_cons.mp hp
+            rcases List.mem_cons.mp h1 with e1 | h1'
+            · rcases List.mem_cons.mp h2 with e2 | h2'
+              · exact hne (e1.trans e2.symm)
+              · have := hp'.1 k0 h2'; rw [← e1, hkk] at this; cases this
+            · rcases List.mem_cons.mp h2 with e2 | h2'
+              · have := hp'.1 k h1'; rw [← e2, sameLine_symm hkk] at this; cases this
+              · exact ihr hp'.2 h1' h2'
+        exact key ks hpw hk hk0
+    obtain ⟨A, B, hAB⟩ := List.append_of_mem hk0
+    have hA : ∀ k ∈ A, sameLine k c = false := by
+      intro k hk
+      apply huniq k (by rw [hAB]; simp [hk])
+      intro e
+      rw [hAB] at hpw
+      have := (List.pairwise_append.mp hpw).2.2 k hk k0 (by simp)
+      rw [e, sameLine_refl] at this; cases this
+    have hB : ∀ k ∈ B, sameLine k c = false := by
+      intro k hk
+      apply huniq k (by rw [hAB]; simp [hk])
+      intro e
+      rw [hAB] at hpw
+      have := (List.pairwise_cons.mp (List.pairwise_append.mp hpw).2.1).1 k hk
+      rw [e, sameLine_refl] at this; cases this
+    have eA : A.flatMap (fun k => (c :: t).filter (sameLine k)) = A.flatMap (fun k => t.filter (sameLine k)) := by
+      apply flatMap_congr'
+      intro k hk; simp [List.filter_cons, hA k hk]
+    have eB : B.flatMap (fun k => (c :: t).filter (sameLine k)) = B.flatMap (fun k => t.filter (sameLine k)) := by
+      apply flatMap_congr'
+      intro k hk; simp [List.filter_cons, hB k hk]
+    rw [hAB] at ih' ⊢
+    simp only [List.flatMap_append, List.flatMap_cons, eA, eB] at ih' ⊢
+    simp only [List.filter_cons, hs0, if_true]
+    refine (List.Perm.cons c ih').trans ?_
+    exact List.perm_middle.symm
+
+theorem objsOfPairs_sorted (m n : Nat) (hn : 0 < n) : ∀ (l : List Bytes) (k : Nat),
+    ((zipIdxFrom k l).filterMap (fun p =>
+      if p.2 = ['0', '0'] then none
+      else some (⟨⟨(m : Int), 4 * ((p.1 : Nat) : Rat) / ((n : Nat) : Rat), none⟩, p.2⟩ : Obj))).Pairwise
+      (fun a b => a.snap.beat < b.snap.beat) ∧
+    ∀ o ∈ (zipIdxFrom k l).filterMap (fun p =>
+      if p.2 = ['0', '0'] then none
+      else some (⟨⟨(m : Int), 4 * ((p.1 : Nat) : Rat) / ((n : Nat) : Rat), none⟩, p.2⟩ : Obj)),
+      4 * ((k : Nat) : Rat) / ((n : Nat) : Rat) ≤ o.snap.beat := by
+  intro l
+  have hnq : (0 : Rat) < ((n : Nat) : Rat) := by exact_mod_cast hn
+  induction l with
+  | nil => intro k; simp [zipIdxFrom]
+  | cons a t ih =>
+    intro k
+    obtain ⟨ih1, ih2⟩ := ih (k + 1)
+    have hstep : 4 * ((k : Nat) : Rat) / ((n : Nat) : Rat) < 4 * (((k + 1 : Nat)) : Rat) / ((n : Nat) : Rat) := by
+      rw [div_lt_div_iff_of_pos_right hnq]; push_cast; linarith
+    simp only [zipIdxFrom, List.filterMap_cons]
+    by_cases h00 : a = ['0', '0']
+    · simp only [h00, if_true]
+      exact ⟨ih1, fun o ho => le_trans (le_of_lt hstep) (ih2 o ho)⟩
+    · simp only [h00, if_false]
+      refine ⟨List.pairwise_cons.mpr ⟨fun o ho => lt_of_lt_of_le hstep (ih2 o ho), ih1⟩, ?_⟩
+      intro o ho
+      rcases List.mem_cons.mp ho with rfl | ho
+      · exact le_refl _
+      · exact le_trans (le_of_lt hstep) (ih2 o ho)
+
+theorem nodup_of_pairwise_lt {α} (f : α → Rat) (l : List α) (h : l.Pairwise (fun a b => f a < f b)) : l.Nodup :=
+  h.imp (fun {a b} hab e => by rw [e] at hab; exact lt_irrefl _ hab)
+
+/-- **The written data lines give every channel an arrangement of exactly its cells' objects.**  The lift of
+`written_objects` from a membership equivalence to a permutation: for renderable cells with the cells of every
+output line on pairwise different slots inside the line, the by-the-book objects of channel `ch` over all lines of
+`linesOfCells cells` are — up to order, with multiplicities — the objects of the non-`00` cells of that channel. -/
+theorem written_objects_perm (cells : List WCell) (hcell : ∀ c ∈ cells, CellOK c)
+    (hslots : ∀ k ∈ lineKeys cells, (cells.filter (sameLine k)).Pairwise (fun a b => a.idx ≠ b.idx) ∧
+      ∀ c ∈ cells.filter (sameLine k), c.idx < k.den) (doc0 : Doc) :
+    ∃ notes, foldlE docStep doc0 (linesOfCells cells) = .ok ⟨doc0.header, doc0.notes ++ notes⟩ ∧
+      (∀ d ∈ notes, (∃ m, parseNat d.1 = some m) ∧ (∃ ps, evenPairs d.2.2 = some ps) ∧ ∃ k ∈ lineKeys cells, d.2.1 = k.channel) ∧
+      ∀ ch, (laneObjs notes ch).Perm ((cells.filter (cellShown ch)).map objOfCell) := by
+  obtain ⟨hsub, hcov, hpw⟩ := lineKeys_cover cells
+  -- line by line: the line is a data line whose objects are an arrangement of its cells' objects
+  have hline : ∀ k ∈ lineKeys cells, ∃ d : Bytes × Bytes × Bytes, classify (lineOf cells k) = .ok (.note d.1 d.2.1 d.2.2) ∧
+      d.2.1 = k.channel ∧ (∃ m, parseNat d.1 = some m) ∧ (∃ ps, evenPairs d.2.2 = some ps) ∧
+      (objsOfLine d).Perm (((cells.filter (sameLine k)).filter (fun c => decide (c.value ≠ ['0', '0']))).map objOfCell) := by
+    intro k hk
+    obtain ⟨hm, hden, hch, _⟩ := hcell k (hsub k hk)
+    obtain ⟨mt, data, objs, hcl, hpn, hlo, hiff⟩ := written_line_denotes cells k hm hden hch
+      (fun c hc => (hcell c hc).2.2.2) (hslots k hk).1 (hslots k hk).2
+    have hobj : objsOfLine (mt, k.channel, data) = objs := objsOfLine_of (mt, k.channel, data) _ objs hpn hlo
+    -- the structure of `objs`
+    unfold lineObjs at hlo
+    cases hps : evenPairs data with
+    | none => simp [hps] at hlo
+    | some ps =>
+      simp only [hps, Option.map_some, Option.some.injEq] at hlo
+      refine ⟨(mt, k.channel, data), hcl, rfl, ⟨_, hpn⟩, ⟨ps, hps⟩, ?_⟩
+      rw [hobj]
+      have hnd1 : objs.Nodup := by
+        rw [← hlo]
+        by_cases hn : 0 < ps.length
+        · exact nodup_of_pairwise_lt (fun o : Obj => o.snap.beat) _ (objsOfPairs_sorted k.measure.toNat ps.length hn ps 0).1
+        · have : ps = [] := List.eq_nil_of_length_eq_zero (by omega)
+          subst this; simp [zipIdxFrom]
+      have hnd2 : (((cells.filter (sameLine k)).filter (fun c => decide (c.value ≠ ['0', '0']))).map objOfCell).Nodup := by
+        have hden' : (0 : Rat) < ((k.den : Nat) : Rat) := by exact_mod_cast hden
+        have hp := ((hslots k hk).1.filter (fun c => decide (c.value ≠ ['0', '0'])))
+        apply List.Nodup.map_on _ (hp.imp (fun {a b} hab e => hab (by rw [e])))
+        intro a ha b hb hab
+        have ha' := (List.mem_filter.mp (List.mem_filter.mp ha).1).2
+        have hb' := (List.mem_filter.mp (List.mem_filter.mp hb).1).2
+        obtain ⟨a1, a2, a3⟩ := (sameLine_iff k a).mp ha'
+        obtain ⟨b1, b2, b3⟩ := (sameLine_iff k b).mp hb'
+        simp only [objOfCell, Obj.mk.injEq, Snap.mk.injEq] at hab
+        obtain ⟨⟨_, hbeat, _⟩, hval⟩ := hab
+        rw [← a3, ← b3] at hbeat
+        have hidx : a.idx = b.idx := by
+          rw [div_left_inj' (ne_of_gt hden')] at hbeat
+          have : ((a.idx : Nat) : Rat) = ((b.idx : Nat) : Rat) := by linarith
+          exact_mod_cast this
+        -- same line, same slot, same value: the same cell
+        obtain ⟨am, ach, aden, aidx, aval⟩ := a
+        obtain ⟨bm, bch, bden, bidx, bval⟩ := b
+        simp only at a1 a2 a3 b1 b2 b3 hidx hval
+        subst hidx hval
+        rw [← a1, ← a2, ← a3, ← b1, ← b2, ← b3]
+      apply (List.perm_ext_iff_of_nodup hnd1 hnd2).mpr
+      intro o
+      rw [hiff o]
+      simp only [List.mem_map, List.mem_filter, decide_eq_true_eq, objOfCell]
+      constructor
+      · rintro ⟨c, hc, hv, rfl⟩
+        obtain ⟨e1, _, e3⟩ := (sameLine_iff k c).mp hc.2
+        exact ⟨c, ⟨hc, hv⟩, by rw [e1, e3]⟩
+      · rintro ⟨c, ⟨hc, hv⟩, rfl⟩
+        obtain ⟨e1, _, e3⟩ := (sameLine_iff k c).mp hc.2
+        exact ⟨c, hc, hv, by rw [e1, e3]⟩
+  -- all lines
+  have hgen : ∀ ks : List WCell, (∀ k ∈ ks, k ∈ lineKeys cells) →
+      ∃ notes, List.Forall₂ (fun l d => classify l = .ok (.note d.1 d.2.1 d.2.2)) (ks.map (lineOf cells)) notes ∧
+        (∀ d ∈ notes, (∃ m, parseNat d.1 = some m) ∧ (∃ ps, evenPairs d.2.2 = some ps) ∧ ∃ k ∈ lineKeys cells, d.2.1 = k.channel) ∧
+        ∀ ch, (laneObjs notes ch).Perm
+          (ks.flatMap (fun k => ((cells.filter (sameLine k)).filter (cellShown ch)).map objOfCell)) := by
+    intro ks
+    induction ks with
+    | nil => intro _; exact ⟨[], List.Forall₂.nil, (by intro d hd; cases hd), (by intro ch; simp [laneObjs])⟩
+    | cons k t ih =>
+      intro hks
+      obtain ⟨notes, hf, hwfN, hperm⟩ := ih (fun x hx => hks x (by simp [hx]))
+      obtain ⟨d, hcl, hdch, hpn, hps, hdo⟩ := hline k (hks k (by simp))
+      refine ⟨d :: notes, List.Forall₂.cons hcl hf, ?_, ?_⟩
+      · intro x hx
+        rcases List.mem_cons.mp hx with rfl | hx
+        · exact ⟨hpn, hps, k, hks k (by simp), hdch⟩
+        · exact hwfN x hx
+      · intro ch
+        rw [laneObjs_cons, List.flatMap_cons]
+        refine List.Perm.append ?_ (hperm ch)
+        by_cases hc : d.2.1 = ch
+        · simp only [hc, if_true]
+          refine hdo.trans (List.Perm.of_eq ?_)
+          congr 1
+          apply List.filter_congr
+          intro c hcm
+          have := (sameLine_iff k c).mp (List.mem_filter.mp hcm).2
+          simp [cellShown, ← this.2.1, ← hdch, hc]
+        · simp only [hc, if_false]
+          apply List.Perm.of_eq
+          symm
+          rw [List.map_eq_nil_iff, List.filter_eq_nil_iff]
+          intro c hcm
+          have := (sameLine_iff k c).mp (List.mem_filter.mp hcm).2
+          simp only [cellShown, Bool.and_eq_true, decide_eq_true_eq, not_and]
+          intro e
+          exact absurd (hdch.trans (this.2.1.trans e)) hc
+  obtain ⟨notes, hf, hwfN, hperm⟩ := hgen (lineKeys cells) (fun k hk => hk)
+  refine ⟨notes, foldlE_docStep_notes _ doc0 notes hf, hwfN, ?_⟩
+  intro ch
+  refine (hperm ch).trans ?_
+  have hpart := partition_perm (lineKeys cells) hpw cells hcov
+  have h1 : ((cells.filter (cellShown ch)).map objOfCell).Perm
+      ((((lineKeys cells).flatMap (fun k => cells.filter (sameLine k))).filter (cellShown ch)).map objOfCell) :=
+    ((hpart.filter _).map _)
+  refine List.Perm.trans (List.Perm.of_eq ?_) h1.symm
+  rw [List.filter_flatMap, List.map_flatMap]
+
 end Reamber.BMS
